@@ -14,15 +14,12 @@ vars == <<l, t, p, mlast, mp, mC, ms>>
 Init == l = 1 /\ t = NewTracker(0, <<>>) /\ p = -1 /\ mlast = <<>> /\ mp = 0 /\ mC = 0 /\ ms = 0
 
 Abs(x) == IF x < 0 THEN -x ELSE x
-\* A chain that lives at location `off` is traced RELATIVE to off (mean and variance are shift-equivariant / invariant);
-\* its f32 running mean cannot be better than the spacing of f32 numbers at off, accumulated over the updates: ms units
-\* per (2 + n/2): an increment delta/n below half a spacing is lost entirely, so a chain that stands
-\* still for long stretches can be off by up to n/2 spacings (true of any f32 running mean).
-MeanOk(tr, k, m) == Abs(m * tr.n - MeanNum(tr, k) * 4096) <= (2 + tr.n \div 256 + ms * (2 + tr.n \div 2)) * tr.n
-\* (the deviations x - mean inherit the error of the mean: at location 4000 (ms = 1) the budget is about 0.1 absolute,
-\* 2-3 % of a typical variance here; the one-pass formula E[x^2] - mean^2 is off by 1 and more there -- for a chain that
-\* does not move at all it reports variance 1.25 -- and is rejected)
-VarOk(tr, k, v) == Abs(v - Fx12(VarNum(tr, k), tr.n * (tr.n - 1))) <= (1 + ms) * (4 + tr.n \div 32) + 400 * ms
+\* A chain that lives at location `off` is traced RELATIVE to off (mean and variance are shift-equivariant / invariant).
+\* The reported mean is an f32 number at that location: it cannot be closer than the spacing of f32 numbers there
+\* (ms units, 2 of them allowed); nothing else may depend on the location -- a tracker that accumulates raw values
+\* (E[x^2] - mean^2, or a running mean of the raw values that stalls once delta/n drops below the spacing) is rejected.
+MeanOk(tr, k, m) == Abs(m * tr.n - MeanNum(tr, k) * 4096) <= (2 + tr.n \div 256 + 2 * ms) * tr.n
+VarOk(tr, k, v) == Abs(v - Fx12(VarNum(tr, k), tr.n * (tr.n - 1))) <= 4 + tr.n \div 32 + ms
 
 New ==
   /\ l <= Len(Rec) /\ Rec[l].e = "new"
@@ -37,8 +34,9 @@ Upd ==
         /\ \A k \in 1..Len(e.x) : MeanOk(t2, k, e.mean[k])
         /\ t2.n >= 2 => \A k \in 1..Len(e.x) : VarOk(t2, k, e.var[k])
         /\ InUnit(e.p)
-        \* first report: the initial value of the average is not fixed by the property
+        \* the average of indicators starts with the first indicator ("did the state change")
         /\ p >= 0 => EmaStepOk(p, e.p, Moved(t, e.x))
+        /\ p < 0 => e.p = (IF Moved(t, e.x) THEN 1048576 ELSE 0)
         /\ t' = t2 /\ p' = e.p
   /\ UNCHANGED <<mlast, mp, mC, ms>> /\ l' = l + 1
 
